@@ -65,6 +65,10 @@ Definition op_of_term (t : term) : option op :=
     else if name_is c "Drop" then match args with [v] => option_map Drop (get_nat v) | _ => None end
     else if name_is c "Read" then
       match args with [l; k] => do l' <- loc_of_term l; do k' <- get_nat k; Some (Read l' k') | _ => None end
+    else if name_is c "AsDict" then
+      match args with [l; k] => do l' <- loc_of_term l; do k' <- get_nat k; Some (AsDict l' k') | _ => None end
+    else if name_is c "AsObj" then
+      match args with [k; d] => do k' <- get_nat k; do d' <- get_nat d; Some (AsObj k' d') | _ => None end
     else None
   | _ => None
   end.
@@ -162,7 +166,23 @@ Section Obs.
   Definition list_eqb (a b : list nat) : bool :=
     Nat.eqb (length a) (length b) && forallb (fun p => Nat.eqb (fst p) (snd p)) (combine a b).
 
-  (* C14: what is observed of a copy *)
+  Definition all_positions (s : st) : list nat := flat_map (tree_of s) (roots s).
+
+  (* C10: registry membership of a node, and the operations that are specified to change it for an existing node *)
+  Definition is_reg (s : st) (a : nat) : bool :=
+    match get_any s (id_of s a) with Some b => Nat.eqb a b | None => false end.
+  Definition member_exempt (o : op) (r : obs) : bool :=
+    match o, r with
+    | Detach _, _ | DetachSelf _, _ => true
+    | Replace _ _ _, OkNode _ => true
+    | _, _ => false
+    end.
+  Definition member_ok (s0 : st) (o : op) (s : st) (r : obs) : bool :=
+    member_exempt o r ||
+    forallb (fun a => negb (memb a (all_positions s)) || Bool.eqb (is_reg s0 a) (is_reg s a)) (all_positions s0).
+
+  (* C14: what is observed of a copy; C03/C10: of the result of as_obj (position by position: an object seen before - the
+     live original - or a new one) *)
   Definition textra (s0 : st) (seen0 : list nat) (o : op) (s : st) (r : obs) : term :=
     match o, r with
     | Dup _ src, OkNode a' =>
@@ -172,6 +192,7 @@ Section Obs.
                      topt tbool (node_eq s a' a)]
       | None => tcon "XNone" []
       end
+    | AsObj _ _, OkNode a' => tcon "XObj" [TList (map (fun x => tbool (memb x seen0)) (tree_of s a'))]
     | DcReplace _ src ch, OkNode a' | Replace _ src ch, OkNode a' =>
       match resolve s0 src with
       | Some a =>
@@ -202,8 +223,6 @@ Section Obs.
     | _, _ => tcon "XNone" []
     end.
 
-  Definition all_positions (s : st) : list nat := flat_map (tree_of s) (roots s).
-
   (* one step: new state, new seen list, the observation; None = inadmissible operation / exhausted fuel *)
   Definition obs_step (s0 : st) (seen0 : list nat) (o : op) : option (st * list nat * term) :=
     let '(s, r) := step H ct late true s0 o in
@@ -218,7 +237,7 @@ Section Obs.
                TList (map (tcell s) fresh);
                TList (map (fun a => TList [tbool (reachable s a); tdesig s (get_any s (id_of s a))]) seen);
                textra s0 seen0 o s r;
-               tcon "Frame" [tbool true; tbool true]])
+               tcon "Frame" [tbool true; tbool true; tbool (member_ok s0 o s r)]])
     end.
 
   Fixpoint obs_run (s : st) (seen : list nat) (l : list op) : option (st * list term) :=
